@@ -47,14 +47,15 @@ impl TracedInterpreterError {
         }
         if let Some(line) = line {
             if let InterpreterError::Syntax(SyntaxError::Tokenization(tok)) = &self.error {
-                let range = tok.string_range(line.as_ref().len());
+                let line = line.as_ref();
+                let range = tok.string_range_in(line);
+                // Count characters, not bytes, so the carets line up under
+                // non-ASCII text too.
+                let spaces = line[..range.start].chars().count();
+                let carets = line[range].chars().count();
                 return vec![
-                    line.as_ref().to_owned(),
-                    format!(
-                        "{}{}",
-                        " ".repeat(range.start),
-                        "^".repeat(range.end - range.start)
-                    ),
+                    line.to_owned(),
+                    format!("{}{}", " ".repeat(spaces), "^".repeat(carets)),
                 ];
             }
         }
